@@ -18,11 +18,12 @@ m={
  "not_applicable":[],
  "notes":notes.get('notes','')
 }
-SMT={'C01','C02','C04','C05','C07','C08','C09','C10','C18','C19'}
+WIDE={'C01','C02','C04','C05','C07','C08','C09','C10','C18','C19'}
 def tech(pid):
-    if pid in SMT:
-        return "symbolic execution of the real functions (go/ssa) with SMT queries (z3 bit-vectors; cvc5 for floating point) on 64-bit symbolic values, exact finite-domain case analysis for declared choices, native replay of counterexamples"
-    return "symbolic execution of the real functions (go/ssa): all inputs of these harnesses are declared finite choices (fault index, scenario, result kinds, schedules), decided exactly by the interpreter's finite-domain reasoning without SMT calls; native replay of counterexamples"
+    base="symbolic execution of the real functions (go/ssa, path forking by re-execution, cooperative scheduler with a delay bound); "
+    if pid in WIDE:
+        return base+"64-bit symbolic values and every assertion over them decided by SMT (z3 bit-vectors, cvc5 for floating point); declared finite choices by z3 in the thorough tier and in the quick tier of the light harnesses, by exact finite-domain evaluation in the quick tier of the heavy ones; native replay of counterexamples"
+    return base+"inputs are declared finite choices (scenario, fault index, result kinds) and schedules: every feasibility/assertion question decided by z3 in the thorough tier and in the quick tier of the light harnesses, by exact finite-domain evaluation (identical verdicts, DESIGN 0.2) in the quick tier of the heavy ones; native replay of counterexamples"
 for p in props:
     pid=p['id']
     if pid in claimed:
